@@ -30,6 +30,10 @@ type stackCaseT struct {
 	Workers    int `json:"workers"`
 	PauseMS    int `json:"pause_ms"` // pause of every worker between two requests
 	Renewals   int `json:"renewals"` // how many lifetimes at 75 % the run lasts
+	// IdleSub: the client also holds an idle subscription (no monitored items,
+	// keep-alive after 10.5 s), so that a Publish request is outstanding for
+	// seconds whenever a renewal is due
+	IdleSub bool `json:"idle_subscription,omitempty"`
 }
 
 func runStackCase(c stackCaseT) (msg string, infra error) {
@@ -54,6 +58,19 @@ func runStackCase(c stackCaseT) (msg string, infra error) {
 		_ = cl.Close(ctx)
 		cancel()
 	}()
+	if c.IdleSub {
+		nch := make(chan *opcua.PublishNotificationData, 64)
+		go func() {
+			for range nch {
+			}
+		}()
+		sctx, scancel := context.WithTimeout(context.Background(), 20*time.Second)
+		_, err := cl.Subscribe(sctx, &opcua.SubscriptionParameters{Interval: 500 * time.Millisecond, MaxKeepAliveCount: 20, LifetimeCount: 10000}, nch)
+		scancel()
+		if err != nil {
+			return "", fmt.Errorf("subscribe: %v", err)
+		}
+	}
 	dur := time.Duration(float64(c.Renewals)*0.75*float64(c.LifetimeMS)+float64(c.LifetimeMS)/2) * time.Millisecond
 	ctx, cancel := context.WithTimeout(context.Background(), dur+60*time.Second)
 	defer cancel()
@@ -75,6 +92,11 @@ func runStackCase(c stackCaseT) (msg string, infra error) {
 				case dv == nil || dv.Status != ua.StatusOK:
 					atomic.AddInt64(&failed, 1)
 					first.CompareAndSwap(nil, fmt.Sprintf("read answered %v", dv))
+				case time.Since(t0) > 4*time.Second:
+					// the server answers a Read at once: seconds of delay mean that the
+					// request waited for something else (e.g. for the renewal to get through)
+					atomic.AddInt64(&failed, 1)
+					first.CompareAndSwap(nil, fmt.Sprintf("a read was answered only after %v", time.Since(t0).Round(time.Millisecond)))
 				default:
 					atomic.AddInt64(&ok, 1)
 				}
@@ -84,7 +106,7 @@ func runStackCase(c stackCaseT) (msg string, infra error) {
 	}
 	wg.Wait()
 	if failed > 0 {
-		return fmt.Sprintf("opcua.Client against server.Server (%s/%v, token lifetime %d ms, %d workers): %d of %d reads failed while the token was renewed about %d times; first: %v", sec.Policy, sec.Mode, c.LifetimeMS, c.Workers, failed, ok+failed, c.Renewals, first.Load()), nil
+		return fmt.Sprintf("opcua.Client against server.Server (%s/%v, token lifetime %d ms, %d workers): %d of %d reads failed or took more than 4 s while the token was renewed about %d times; first: %v", sec.Policy, sec.Mode, c.LifetimeMS, c.Workers, failed, ok+failed, c.Renewals, first.Load()), nil
 	}
 	if ok == 0 {
 		return "", fmt.Errorf("no read completed")
@@ -100,6 +122,7 @@ func TestClientAgainstServer(t *testing.T) {
 			Workers:    rapid.IntRange(2, 4).Draw(t, "workers"),
 			PauseMS:    rapid.SampledFrom([]int{0, 1, 5, 20}).Draw(t, "pause"),
 			Renewals:   rapid.IntRange(3, 4).Draw(t, "renewals"),
+			IdleSub:    rapid.IntRange(0, 2).Draw(t, "idleSub") > 0,
 		}
 		msg, infra := runStackCase(c)
 		b, _ := json.Marshal(c)
@@ -109,7 +132,7 @@ func TestClientAgainstServer(t *testing.T) {
 			t.Logf("no verdict: %v", infra)
 			return
 		}
-		rec.Case(true, ev.Hash("stack", b), "client-vs-server", "client-vs-server:"+stack.AllSec[c.Sec].Policy)
+		rec.Case(true, ev.Hash("stack", b), "client-vs-server", "client-vs-server:"+stack.AllSec[c.Sec].Policy, fmt.Sprintf("client-vs-server:idle-subscription=%v", c.IdleSub))
 		if rec.WantSample() {
 			rec.Sample(map[string]any{"kind": "client-vs-server", "case": c})
 		}
